@@ -20,6 +20,9 @@ M = {
  "keyword arguments and keyword parameter": ("C08", "H-kwargs-order", "needs >= 2 side-effecting keyword arguments or duplicate keywords; order differs from run to run"),
  "raising the constant": ("C19", "H-shared-notimplemented-trace", "needs two programs in one interpreter that both raise `_`"),
  "pangaea test evaluates each file": ("C19", "H-runtest-shared-scope", "needs two test files where the second reads a name the first defined"),
+ "literal-call steps on an Either unpack": ("C13", "H-literal-proxy-no-unpack", "needs a literal step with >= 2 parameters applied to an Either holding an array"),
+ "literals that cannot be represented": ("C17", "H-literal-errors-discarded", "needs an out-of-range literal, an exponent literal above 2**53 / not exactly representable, or an undefined escape"),
+ "merely begin with a reserved word": ("C17", "H-keyword-prefix-idents", "needs a name that begins with if/else/return/raise/yield/defer"),
  "SymHash2Str takes the read lock": ("C20", "H-symhash2str-race", "needs one evaluation interning new symbols while another converts symbols to strings"),
 }
 log = subprocess.run(["git", "-C", "/repo", "log", "--format=%h %s"], capture_output=True, text=True).stdout.splitlines()
